@@ -17,20 +17,21 @@ MANIFEST = dict(
          'arrival order, none skipped or repeated; if every datagram is a spa reply (any name bytes, including "|", non-ASCII, empty) the '
          'consumer never dies and every handled reply is accounted for (listed_iff_replied, full strength since the D2 fix 8ce8f9d); '
          'only the requested identifier is listed; the loop returns only for one of its three reasons; an iteration at age >= timeout '
-         'never continues; on return the endpoint is closed, both LOC tasks are gone and nothing changes afterwards. In the lockstep '
+         'never continues; when discover() returns OR is cancelled (clean-up in a finally block since 865a18b) the endpoint is closed, both '
+         'LOC tasks are gone and nothing changes afterwards (closed_on_return, closed_on_cancel, frozen_after_return). In the lockstep '
          'tick model (both 0.1 s pollers wake every tick in either order): return by the timeout tick for every input, at the tick '
          'after a spa is listed when an address/identifier was given, at the first tick after the initial wait once any spa is listed. '
          'Tie: trace correspondence with the REAL GeckoAsyncLocator on a virtual-time loop with a fake network of scripted responders '
          '(duplicates, bursts, replies around each deadline +-1 ms and +-1 tick, latin-1 / "|" / empty names, same name, same id from two '
-         'addresses, junk and malformed hellos, suspending event handlers, address and identifier filters, callback order shuffled, timer '
-         'jitter): the observed order of arrivals, consumer pops, handler returns and main-loop polls is fed to the model driver and the '
+         'addresses, junk and malformed hellos, suspending event handlers, cancellation of discover() at scripted times, address and '
+         'identifier filters, callback order shuffled, timer jitter): the observed order of arrivals, consumer pops, handler returns and main-loop polls is fed to the model driver and the '
          'spas in order, return time, closed endpoint, consumer fate, found flag and queue length are compared; the threaded twin\'s '
          '_on_discovered is compared against its own model function; direct monitors on the real locator.',
     note='Partial: the timing clauses are theorems about the lockstep tick model; real timer skew is outside (jittered runs are still '
          'compared exactly because the model accepts any schedule, and the monitors bound the return time by the skew). Hypothesis kept '
          'visible: spa identifiers contain no "|" and do not start with IOS/AND (true of SPA+MAC identifiers; id_hypothesis_needed shows '
-         'it cannot be dropped). Not covered: the 1 Hz broadcast cadence and real broadcast delivery; cancellation of discover() itself '
-         '(C10); the threaded GeckoLocator beyond its _on_discovered (correspondence only; it lists every spa and uses the filter only for '
+         'it cannot be dropped). Not covered: the 1 Hz broadcast cadence and real broadcast delivery; a cancellation that lands inside '
+         'create_datagram_endpoint, before the locator owns a transport; the threaded GeckoLocator beyond its _on_discovered (correspondence only; it lists every spa and uses the filter only for '
          'the found flag). Noted, outside the quantifier: the consumer handles at most one datagram per 0.1 s (more than about 40 spas '
          'answering at once are not all listed by the initial wait), and a datagram that is not a hello stays at the head of the queue and '
          'blocks every later reply (modelled faithfully, not judged). Trusted: Lean kernel; axioms propext/Classical.choice/Quot.sound; '
@@ -68,6 +69,13 @@ class Net:
             self.log.append(["pop", loop.ms()])
             return orig_pop()
         q.pop = pop
+        orig_close = tr.close
+
+        def close():
+            if not tr.closed:
+                self.log.append(["close", loop.ms()])
+            return orig_close()
+        tr.close = close
         for a in self.script.get("arrivals", []):
             loop.call_later(a[0] / 1000, self._deliver, bytes.fromhex(a[1]), (a[2], a[3]))
 
@@ -133,14 +141,26 @@ def run_script(script):
             if flt.get("address") is not None:
                 kw["spa_address"] = flt["address"]
             loc = al.GeckoAsyncLocator(tm, on_event, **kw)
-            out = {"returned": True}
-            try:
-                await asyncio.wait_for(loc.discover(), timeout=script.get("give_up_s", 40))
-            except asyncio.TimeoutError:
-                out["returned"] = False
-            except Exception as e:  # noqa
-                out["returned"] = False
-                out["raised"] = f"{type(e).__name__}: {e}"
+            out = {}
+            task = loop.create_task(loc.discover())
+            if script.get("cancel_ms") is not None:
+                def do_cancel():
+                    if not task.done():
+                        log.append(["cancelreq", loop.ms()])
+                        task.cancel()
+                loop.call_later(script["cancel_ms"] / 1000, do_cancel)
+            _done, pend = await asyncio.wait([task], timeout=script.get("give_up_s", 40))
+            if pend:
+                out["outcome"] = "running"
+                task.cancel()
+            elif task.cancelled():
+                out["outcome"] = "cancelled"
+            elif task.exception() is not None:
+                out["outcome"] = "raised"
+                out["raised"] = f"{type(task.exception()).__name__}: {task.exception()}"
+            else:
+                out["outcome"] = "returned"
+            out["returned"] = out["outcome"] == "returned"
             out["ret_ms"] = loop.ms()
             n_log = len(log)
             out["closed_at_return"] = bool(net.tr is not None and net.tr.closed)
@@ -216,8 +236,11 @@ def monitor(script, res):
     flt = script.get("filter", {})
     want_id = bytes.fromhex(flt["id"]) if flt.get("id") is not None else None
     restricting = want_id is not None or flt.get("address") is not None
-    if not res["returned"]:
-        return [("no-return", f"discover() returns by {TIMEOUT + slack} ms", res.get("raised", f"still running at {res['ret_ms']} ms"))]
+    if res["outcome"] == "raised":
+        return [("discover-raised", "discover() returns", res.get("raised"))]
+    if res["outcome"] == "running":
+        return [("no-return", f"discover() returns by {TIMEOUT + slack} ms", f"still running at {res['ret_ms']} ms")]
+    cancelled = res["outcome"] == "cancelled"
     ret = res["ret_ms"]
     spas = [(bytes.fromhex(a), bytes.fromhex(b), c, d) for a, b, c, d in res["spas"]]
     ids = [s[0] for s in spas]
@@ -242,7 +265,7 @@ def monitor(script, res):
             out.append(("fields-altered", [x.hex() if isinstance(x, bytes) else x for x in first[s[0]]],
                         [x.hex() if isinstance(x, bytes) else x for x in s]))
     # every responding spa is listed (when its reply had time to be handled: one datagram per poll, strictly in order)
-    if not junk:
+    if not junk and not cancelled:
         bar = any(p is not None and b"|" in p[1] for p, _ in parsed)
         first_idx = {}
         for k, (p, e) in enumerate(parsed):
@@ -258,6 +281,12 @@ def monitor(script, res):
                             f"listed: {[x.hex() for x in ids]}; hello consumer: {res['consumer']}"))
                 break
     # termination
+    if cancelled:
+        if not res["closed_at_return"] or res["open_transports"]:
+            out.append(("endpoint-open:cancelled", "transport closed when discover() is cancelled", f"closed={res['closed_at_return']} open={res['open_transports']}"))
+        if res["loc_alive"]:
+            out.append(("loc-task-alive:cancelled", "no LOC: task left after a cancelled discover()", res["loc_alive"]))
+        return out
     if ret > TIMEOUT + (slack if J else 0):
         out.append(("late-return:timeout", f"return by {TIMEOUT + (slack if J else 0)} ms", f"{ret} ms"))
     resumes = [e[1] for e in res["log"] if e[0] == "resume"]
@@ -369,6 +398,8 @@ def gen_script(rng, sched, fam, bar_ok=True):
         sc["filter"] = {"id": x["id"], "address": x["ip"]}
     if fam == "suspend" or rng.random() < 0.15:
         sc["suspend_ms"] = [rng.choice([0, 0, 50, 100, 150, 1000, 5000]) for _ in range(rng.randint(1, 3))]
+    if fam == "cancel":
+        sc["cancel_ms"] = rng.choice([1, 50, 100, 101, 150, 1000, 3999, 4000, 4001, 4050, 4100, 9999, 10000, rng.randint(1, 10000)])
     if fam == "junk":
         for _ in range(rng.randint(1, 2)):
             p = rng.choice([b"<HELLO>1</HELLO>", b"<HELLO>IOSabc</HELLO>", b"<HELLO>nobar</HELLO>", b"<PACKT>x</PACKT>", b"", b"<HELLO>",
@@ -377,7 +408,7 @@ def gen_script(rng, sched, fam, bar_ok=True):
     return sc
 
 
-FAMILIES = ["basic", "basic", "deadline", "deadline", "twins", "suspend", "burst", "junk", "silent"]
+FAMILIES = ["basic", "basic", "deadline", "deadline", "twins", "suspend", "burst", "junk", "silent", "cancel"]
 
 
 def scripts(ctx, n):
@@ -421,14 +452,18 @@ def model_lines(script, res):
             lines.append(f"consume {susp}"); expect.append("ok")
         elif e[0] == "resume":
             lines.append("resume"); expect.append("ok")
+        elif e[0] == "close" and res["outcome"] == "cancelled":
+            lines.append("cancel"); expect.append(f"cancelled:{e[1]}")     # the `finally` block ran here, without an exit iteration
         i += 1
     for j in polls[:-1]:
         expect[j] = "running"
     if polls:
         expect[polls[-1]] = f"returned:{res['ret_ms']}" if res["returned"] else "running"
+    closes = [e[1] for e in log if e[0] == "close"]
     lines.append("dump")
     spas = ",".join(f"{hx(bytes.fromhex(a))}/{hx(bytes.fromhex(b))}/{hx(c.encode('latin1'))}/{d}" for a, b, c, d in res["spas"]) or "none"
-    main = f"returned:{res['ret_ms']}" if res["returned"] else "running"
+    main = f"returned:{res['ret_ms']}" if res["returned"] else \
+        (f"cancelled:{closes[0]}" if res["outcome"] == "cancelled" and closes else "running")
     expect.append(f"main={main} closed={1 if res['closed_at_return'] else 0} bcast={1 if 'LOC:Broadcast loop' in res['loc_alive'] else 0} "
                   f"consumer={res['consumer']} found={1 if res['found'] else 0} queue={res['queue']} spas={spas}")
     return lines, expect
@@ -454,7 +489,7 @@ def correspondence(ctx, runs):
         if e is not None and m != e:
             fam, script, res = runs[owner[i]]
             what = "final-state(spas,return,closed,consumer,found,queue)" if lines[i] == "dump" else \
-                   "return-time" if lines[i] == "poll" else "config-waits" if lines[i].startswith("cfg") else "op"
+                   "return-time" if lines[i] == "poll" else "cancel-cleanup" if lines[i] == "cancel" else "config-waits" if lines[i].startswith("cfg") else "op"
             ctx.obligation_broken("correspondence:" + what, {"script": script, "op_index": i, "op": lines[i], "model": m, "impl": e,
                                                              "log_tail": res["log"][-12:]})
             return
@@ -546,6 +581,12 @@ def run(ctx):
     if st["ConfigTables"] != "ok":
         ctx.obligation_broken("translate:ConfigTables", st["ConfigTables"])
     ctx.lean_obligations("GeckoModel.Properties.C15")
+    try:
+        import geckolib.async_locator, geckolib.locator, geckolib.config, geckolib.async_tasks  # noqa
+    except BaseException as e:  # noqa   (a tree that does not even import: nothing can be discovered)
+        ctx.violation("import-failed", {"kind": "import"}, "geckolib imports", f"{type(e).__name__}: {e}")
+        ctx.cov["rule"] = "the library under test could not be imported"
+        return
 
     runs = [("d2-regression", D2_SCRIPT, run_script(D2_SCRIPT))]
     hangs = 0
@@ -564,6 +605,7 @@ def run(ctx):
         ctx.hist("jitter_ms", script["sched"]["jitter_ms"])
         if "error" not in res:
             ctx.hist("real_consumer_fate", res["consumer"])
+            ctx.hist("outcome", res["outcome"])
             ctx.hist("spas_listed", min(len(res["spas"]), 9))
             ctx.hist("return_second", res["ret_ms"] // 1000)
             pops = sum(1 for e in res["log"] if e[0] == "pop")
@@ -595,6 +637,12 @@ def run(ctx):
 
 
 def replay(inp):
+    if inp.get("kind") == "import":
+        try:
+            import geckolib.async_locator, geckolib.locator, geckolib.config, geckolib.async_tasks  # noqa
+            return False, "imports"
+        except BaseException as e:  # noqa
+            return True, f"{type(e).__name__}: {e}"
     script = inp["script"]
     res = run_script(script)
     v = monitor(script, res)
